@@ -153,7 +153,10 @@ fn flatten_line(
                 }
                 match sem {
                     Sem::Tex => {
-                        // The line is read to its end; the token itself does nothing visible.
+                        // The line is read to its end; the token itself does nothing visible. It
+                        // is replaced by \relax so that the lexer is in the same state (blanks
+                        // skipped after a control word) as after `\endinput `.
+                        cur.push_str("\\relax ");
                     }
                     Sem::K1 => {
                         // The rest of the line and its end-of-line character are dropped.
